@@ -8,7 +8,7 @@
 From Coq Require Import String List NArith Bool.
 From GQL Require Import Base.Bytes Syntax.Lexer Syntax.Ast Syntax.Parser Syntax.Printer Proofs.SyntaxPrinter Proofs.SyntaxUtf8 Proofs.SyntaxRender Syntax.Grammar Proofs.SyntaxTypeRT
   Proofs.SyntaxComplete Proofs.SyntaxRoundTrip Proofs.SyntaxRoundTripFinal Proofs.SyntaxBlock Proofs.SyntaxRoundTripSDL
-  Syntax.PrintVisit Proofs.SyntaxNoEdit.
+  Syntax.PrintVisit Proofs.SyntaxNoEdit Proofs.SyntaxPrintLoc.
 Import ListNotations.
 Open Scope N_scope.
 
@@ -17,7 +17,7 @@ Theorem C08_quote_total : forall s, quote_string s <> Err.
 Proof.
   intro s. unfold quote_string.
   assert (H : forall f s, quote_body f s <> Err).
-  { induction f as [|f IH]; intro s0; simpl; [discriminate|].
+  { induction f as [|f IH]; intro s0; [discriminate|]. rewrite quote_body_step.
     destruct (rune_at s0) as [[r n]|]; [|discriminate].
     specialize (IH (dropN n s0)). destruct (quote_body f (dropN n s0)); [discriminate|contradiction|discriminate]. }
   specialize (H (S (length s)) s). destruct (quote_body (S (length s)) s); [discriminate|contradiction|discriminate].
@@ -204,6 +204,64 @@ Theorem C08_no_edit_general : forall keys fn, safe_fn fn ->
 Proof. exact visit_no_edit. Qed.
 Print Assumptions C08_no_edit_general.
 
+(* ---- printing does not depend on locations; stability for ASTs that were not parsed ---- *)
+
+(* The printer does not look at locations: two documents -- any two ASTs, parsed or built by
+   hand -- with the same kind/field/value tree once every Loc is zeroed print to the same text. *)
+Theorem C08_print_ignores_locations : forall d d', erase_loc d = erase_loc d' -> print_doc d = print_doc d'.
+Proof. exact print_ignores_locations. Qed.
+Print Assumptions C08_print_ignores_locations.
+
+(* the comparison of the runner (kinds, atoms, children; locations ignored) decides equality of erased trees *)
+Lemma gt_eqb_gnl : forall a b, gt_eqb false a b = true -> gnl a = gnl b.
+Proof.
+  fix IH 1. intros [t1 a1 s1 e1 k1] [t2 a2 s2 e2 k2] H. cbn [gt_eqb] in H.
+  apply andb_true_iff in H. destruct H as [H Hk]. apply andb_true_iff in H. destruct H as [H _].
+  apply andb_true_iff in H. destruct H as [Ht Ha]. apply N.eqb_eq in Ht. apply bytes_eqb_eq in Ha. subst.
+  cbn [gnl]. f_equal. revert k2 Hk. induction k1 as [|x k1 IHk]; intros [|y k2] Hk; try discriminate Hk; [reflexivity|].
+  apply andb_true_iff in Hk. destruct Hk as [Hx Hr]. cbn [map]. rewrite (IH x y Hx), (IHk k2 Hr). reflexivity.
+Qed.
+
+(* An AST survives one round when the text printed for it parses to an AST equal to it up to
+   locations -- a decidable condition on any AST (no parse of a source is assumed). *)
+Definition reparses (d : document) : bool :=
+  match parse (print_doc d) with
+  | Ok (d', _) => gt_eqb false (g_doc d') (g_doc d)
+  | _ => false
+  end.
+
+(* Stability for every AST, parsed or not: if d survives one round (reparses d), the document read
+   back from its text prints to the same text -- the second print of print, parse, print equals the first. *)
+Theorem C08_stable_any : forall d, reparses d = true ->
+  exists d' mb, parse (print_doc d) = Ok (d', mb) /\ erase_loc d' = erase_loc d /\ print_doc d' = print_doc d.
+Proof.
+  intros d H. unfold reparses in H. destruct (parse (print_doc d)) as [[d' mb]| |] eqn:P; try discriminate H.
+  apply gt_eqb_gnl in H. exists d', mb. split; [reflexivity|]. split; [exact H|]. apply print_ignores_locations. exact H.
+Qed.
+Print Assumptions C08_stable_any.
+
+(* And every AST equal up to locations to a parsed document (one built by hand with other Locs,
+   a relocated or copied one) is covered by the round-trip law of that document. *)
+Theorem C08_stable_relocated_partial : forall src d0 mb d,
+  parse src = Ok (d0, mb) -> src_strings_utf8 src = true -> erase_loc d = erase_loc d0 ->
+  exists d', parse (print_doc d) = Ok (d', false) /\ erase_loc_descr d' = erase_loc_descr d0 /\ print_doc d' = print_doc d.
+Proof.
+  intros src d0 mb d H A E. rewrite (print_ignores_locations d d0 E). apply (roundtrip_src src d0 mb H A).
+Qed.
+Print Assumptions C08_stable_relocated_partial.
+
+(* ---- strings that are not valid UTF-8 ---- *)
+
+(* Before fixes/C08-invalid-utf8-bytes.patch quoteString wrote U+FFFD for every byte that does not
+   decode (quote_string_fffd); the lexer accepts such bytes inside a string and stores them as they
+   stand, so the law was false on documents the parser accepts: the string FF is printed as a text
+   that is lexed to a different string.  (Witness replayed on the implementation: the source
+   { a(x: "<FF>") } parsed, printed "\uFFFD"-wise and came back with the value EF BF BD; corpus of harness/c08.go.) *)
+Theorem C08_roundtrip_refuted_invalid_utf8 : exists s q v,
+  quote_string_fffd s = Ok q /\ lex q = Ok ([mktok STRING 0 (nlen q) v; mktok EOF (nlen q) (nlen q) []], false) /\ v <> s.
+Proof. exists [255], [34; 239; 191; 189; 34], [239; 191; 189]. split; [vm_compute; reflexivity|]. split; [vm_compute; reflexivity|discriminate]. Qed.
+Print Assumptions C08_roundtrip_refuted_invalid_utf8.
+
 (* non-vacuity: a source that satisfies the hypotheses *)
 Example C08_roundtrip_nonvacuous :
   let src := of_string "query Q($a: [Int!] = [1, -2.5e3]) @d(x: ""s\n"") { a: b(x: {k: $a}) ... on T { c } ...F }" in
@@ -244,3 +302,26 @@ Proof. repeat split; vm_compute; reflexivity. Qed.
 Example C08_no_edit_nonvacuous :
   exists h', visit ex_keys ex_fn_node 3 ex_heap 1 = Some (h', Some (RNode 1)) /\ h' <> ex_heap.
 Proof. exact visit_can_edit. Qed.
+
+(* non-vacuity of C08_stable_any: a document built by hand (never parsed; all Locs zero) -- a type with
+   a described field, an enum, and a query with a variable, a directive and an inline fragment *)
+Definition z : loc := mkloc 0 0.
+Definition nm0 (s : string) : name := mkname (of_string s) z.
+Definition hand_doc : document :=
+  mkdoc [ DObject (mkobjdef (Some (of_string "a type", z)) (nm0 "T") [mknamed (nm0 "I") z] []
+                     [mkfielddef (Some ([97; 10; 98], z)) (nm0 "f") [mkivdef None (nm0 "x") (TNonNull (TNamed (mknamed (nm0 "Int") z)) z) (Some (VInt [49] z)) [] z]
+                                 (TList (TNamed (mknamed (nm0 "T") z)) z) [mkdir (nm0 "d") [] z] z] z);
+          DEnum None (nm0 "E") [] [mkenumvaldef None (nm0 "A") [] z] z;
+          DOp (mkopdef Query (Some (nm0 "Q")) [mkvardef (nm0 "v") z (TNamed (mknamed (nm0 "S") z)) (Some (VStr [34; 255] z)) z]
+                 [mkdir (nm0 "live") [mkarg (nm0 "ttl") (VFloat (of_string "1.5e3") z) z] z]
+                 (SelSet [SInline (Some (mknamed (nm0 "T") z)) [] (SelSet [SField (Some (nm0 "k")) (nm0 "f") [] [] None z] z) z] z) z) ] z.
+Example C08_stable_any_nonvacuous : reparses hand_doc = true.
+Proof. vm_compute. reflexivity. Qed.
+
+(* with the repaired quoting the former counterexample survives the round trip on the model *)
+Example C08_invalid_utf8_survives :
+  match parse [123; 97; 40; 120; 58; 34; 255; 34; 41; 125] with
+  | Ok (d, _) => reparses d
+  | _ => false
+  end = true.
+Proof. vm_compute. reflexivity. Qed.
